@@ -69,8 +69,20 @@ RowsV == { r \in Rows : Valid(r) }
 (* JWT access tokens: only an untouched token signed by the configured key with its asymmetric algorithm *)
 JwtMutations == { "identity", "alg_none", "alg_none_signature_kept", "hs256_with_public_key", "signed_by_other_key", "payload_edited",
                   "header_edited_alg_rs384", "signature_stripped", "signature_of_other_token", "two_segments", "four_segments",
-                  "expired_claim_edited", "garbage" }
-JwtRows == { [kind |-> "jwt", mut |-> m, accept |-> m = "identity"] : m \in JwtMutations }
+                  "expired_claim_edited", "garbage",
+                  \* protected headers that make a JOSE library leave its usual path before it has looked at the signature
+                  "crit_string_payload_edited", "crit_string_alg_none", "crit_unknown_extension", "embedded_jwk_signed_by_other_key",
+                  "b64_false_payload_edited", "header_not_an_object" }
+(* validator: "stored" = the introspection handler that looks the token's signature up in the store;
+              "stateless" = StatelessJWTValidator, which trusts the JWT alone (no revocation, by design) and rebuilds the
+              request from the claims.  age: presented before / after the token's expiry.  scope: the scope the resource
+              server asks for is / is not among the granted ones.  sess: the session type the application handed to the
+              token endpoint (the harness's OpenID Connect session or the library's oauth2.JWTSession). *)
+JwtRow(m, v, a, sc, se) == [kind |-> "jwt", mut |-> m, validator |-> v, age |-> a, scope |-> sc, sess |-> se,
+                            accept |-> m = "identity" /\ a = "fresh" /\ sc = "covered"]
+JwtRows == { JwtRow(m, v, "fresh", "covered", se) : m \in JwtMutations, v \in {"stored", "stateless"}, se \in {"openid", "jwtsession"} }
+           \cup { JwtRow("identity", v, a, sc, se) : v \in {"stored", "stateless"}, a \in {"fresh", "expired"}, sc \in {"covered", "not_covered"},
+                                                    se \in {"openid", "jwtsession"} }
 
 ASSUME \A c \in Configs : Accept("identity", c) <=> c.name \in {"same", "rotated_1", "rotated_last", "rotated_first", "short_after", "prefix_32_equal", "rotated_only", "rotated_only_last"}
 ASSUME \A r \in RowsV : r.mut # "identity" => ~r.accept
